@@ -116,7 +116,7 @@ func NewSurface(width uint16, height uint16, w Widget) Surface {
 			Height: height,
 		},
 		Widget: w,
-		Buffer: make([]vaxis.Cell, height*width),
+		Buffer: make([]vaxis.Cell, int(height)*int(width)),
 	}
 }
 
@@ -130,7 +130,7 @@ func (s *Surface) WriteCell(col uint16, row uint16, cell vaxis.Cell) {
 		row >= s.Size.Height {
 		return
 	}
-	i := (row * s.Size.Width) + col
+	i := (int(row) * int(s.Size.Width)) + int(col)
 	s.Buffer[i] = cell
 }
 
